@@ -257,6 +257,7 @@ def parseCallItems (items : List String) : CallSpec :=
       | .ok h => { cs with params := cs.params ++ [(name.toList, h, parseValueU val)] }
       | .error e => { cs with err := cs.err <|> some e }
     | ["D", _, _] => cs
+    | ["AL"] => cs     -- identical annotation specs share ONE annotation object (a type alias): annotations are values in the model
     | ["VA", _, _] => cs
     | ["VK", _, _] => cs
     | ["PD", name, mode, specs, val] =>
